@@ -702,3 +702,52 @@ Qed.
 
 Example history_example : scale_product [OpRead; OpScale 3; OpFilter (fun _ => RtoC 1) true; OpDiv 2; OpRead] = (3 * (/ 2 * 1))%R.
 Proof. reflexivity. Qed.
+
+(* ------------------------------------------------------------------ multi-term FunctionSignals *)
+Lemma fs_read_length times fvals st : length fvals = length times -> length (fs_read times fvals st) = length times.
+Proof.
+  intros L. unfold fs_read, function_signal_values. cbv zeta. rewrite n_buffer_zero. simpl skipn.
+  rewrite firstn_length. destruct (fs_filters st); rewrite ?apply_filters_length, map_length; lia.
+Qed.
+
+Definition group_ok (times : list R) (gr : fs_group) : Prop := length (g_vals gr) = length times.
+
+Fixpoint list_sum_R' (l : list R) : R := match l with [] => 0%R | x :: t => (x + list_sum_R' t)%R end.
+
+Lemma mg_fold_nth times st : forall acc n, List.Forall (group_ok times) st -> length acc = length times -> (n < length times)%nat ->
+  nth n (fold_left (fun a gr => map2 Rplus a (group_read times gr)) st acc) 0%R
+  = (nth n acc 0 + list_sum_R' (map (fun gr => nth n (group_read times gr) 0%R) st))%R.
+Proof.
+  induction st as [|gr r IH]; intros acc n HF La Hn; simpl.
+  - ring.
+  - inversion HF as [|? ? Hg HF']; subst.
+    assert (Lg : length (group_read times gr) = length times) by (apply fs_read_length; exact Hg).
+    rewrite IH by (try assumption; rewrite map2_length, La, Lg; lia).
+    rewrite (nth_map2 _ _ _ _ 0%R 0%R) by lia. ring.
+Qed.
+
+(* what a multi-term FunctionSignal reads is the sum over its terms of what each term reads with ITS OWN factor and filters *)
+Lemma mg_read_nth times st n : List.Forall (group_ok times) st -> (n < length times)%nat ->
+  nth n (mg_read times st) 0%R = list_sum_R' (map (fun gr => nth n (group_read times gr) 0%R) st).
+Proof.
+  intros HF Hn. unfold mg_read. rewrite mg_fold_nth by (try assumption; apply zeros_length).
+  rewrite nth_zeros. ring.
+Qed.
+
+Lemma list_sum_R'_app a b : list_sum_R' (a ++ b) = (list_sum_R' a + list_sum_R' b)%R.
+Proof. induction a; simpl; [ring | rewrite IHa; ring]. Qed.
+
+(* a + b reads as a reads plus b reads, whatever filters and factors the two sides carry, in either order *)
+Lemma mg_add_lemma times a b n : List.Forall (group_ok times) a -> List.Forall (group_ok times) b -> (n < length times)%nat ->
+  nth n (mg_read times (a ++ b)) 0%R = (nth n (mg_read times a) 0 + nth n (mg_read times b) 0)%R.
+Proof.
+  intros Ha Hb Hn. rewrite !mg_read_nth by (try assumption; apply List.Forall_app; split; assumption).
+  rewrite map_app, list_sum_R'_app. reflexivity.
+Qed.
+
+(* filtering a sum is filtering every term *)
+Lemma mg_filter_app g fr a b : mg_filter g fr (a ++ b) = mg_filter g fr a ++ mg_filter g fr b.
+Proof. apply map_app. Qed.
+
+Lemma mg_filter_ok times g fr a : List.Forall (group_ok times) a -> List.Forall (group_ok times) (mg_filter g fr a).
+Proof. intros H. unfold mg_filter. rewrite List.Forall_map. exact H. Qed.
